@@ -347,12 +347,7 @@ def r14_4_5(rep: Report) -> None:
             else:
                 rep.fail('R14.4', construct, f'division {short(n, 40)}',
                          'division by self.interval without a positive guard', n)
-    # the event is selected for [seg_start, seg_end): loop test and skip test
-    if norm(loop.test) == 'presentation_time < seg_end':
-        rep.ok('R14.4', construct, 'window upper bound')
-    else:
-        rep.fail('R14.4', construct, 'window upper bound',
-                 f'loop test is `{norm(loop.test)}`', loop)
+    # (the window [seg_start, seg_end) of each emitted event is proved in r14_7)
     # R14.5
     mc = need(find_func(cls, 'create_manifest_context'), 'create_manifest_context')
     c2 = f'{rel}::RepeatingEventBase.create_manifest_context'
@@ -383,6 +378,87 @@ def r14_4_5(rep: Report) -> None:
             rep.ok('R14.5', c2, label)
         else:
             rep.fail('R14.5', c2, label, f'expected `{needle}` in the out-of-band listing', mc)
+
+
+def r14_7(rep: Report) -> None:
+    """bounded schedules: with count > 0 only the events 0 .. count-1 exist (the manifest lists
+    range(count)).  Zone-domain proof that at every construction of an EventMessageBox in
+    create_emsg_boxes either count <= 0 (unbounded schedule) or event_id <= count - 1."""
+    from ..absint import Zone, ZoneDomain, ZERO, INF
+    from ..flow import Disjunctive, Flow
+    rid = 'R14.7'
+    rel = f'{EV}/repeating_event_base.py'
+    tree = rep.repo.tree(rel)
+    cls = need(find_class(tree, 'RepeatingEventBase'), 'RepeatingEventBase')
+    fn = need(find_func(cls, 'create_emsg_boxes'), 'create_emsg_boxes')
+    construct = f'{rel}::RepeatingEventBase.create_emsg_boxes'
+    # the payload hooks called inside the loop do not assign attributes of the event object
+    pure: set[str] = set()
+    impls = 0
+    for rel2 in rep.repo.py_files(EV):
+        for c in [n for n in ast.walk(rep.repo.tree(rel2)) if isinstance(n, ast.ClassDef)]:
+            m = find_func(c, 'get_emsg_event_payload')
+            if m is None:
+                continue
+            impls += 1
+            stores = [n for n in ast.walk(m) if isinstance(n, (ast.Assign, ast.AugAssign, ast.AnnAssign))
+                      for t in (n.targets if isinstance(n, ast.Assign) else [n.target])
+                      if norm(t).startswith('self.')]
+            if stores:
+                rep.note(f'R14.7: {rel2}::{c.name}.get_emsg_event_payload assigns {norm(stores[0])}')
+                impls = -100
+    if impls > 0:
+        pure.add('self.get_emsg_event_payload')
+    zd = ZoneDomain(attr_roots=('self',), pure_calls=pure)
+    verdicts: list[tuple[bool, str, ast.AST]] = []
+    window: list[tuple[bool, bool, ast.AST]] = []
+
+    def on_stmt(st: ast.stmt, states) -> None:
+        if isinstance(st, (ast.If, ast.While, ast.For, ast.Try, ast.With)):
+            return
+        if not any(isinstance(c, ast.Call) and (call_name(c) or '').endswith('EventMessageBox')
+                   for c in ast.walk(st)):
+            return
+        for z in states:
+            z.close()
+            window.append((z.upper_diff('presentation_time', 'seg_end') <= -1,
+                           z.upper_diff('seg_start', 'presentation_time') <= 0, st))
+            lo, hi = z.bound('self.count')
+            if hi <= 0:
+                verdicts.append((True, 'unbounded schedule', st))
+            elif z.upper_diff('event_id', 'self.count') <= -1:
+                verdicts.append((True, 'event_id <= count - 1', st))
+            else:
+                d = z.upper_diff('event_id', 'self.count')
+                verdicts.append((False, f'event_id - count <= {d:g}' if d < INF else 'event_id is not bounded by count', st))
+
+    z0 = Zone()
+    for v in ('self.count', 'event_id', 'self.interval', 'self.start', 'self.timescale'):
+        z0.ints.add(v)
+    rep.axioms.append('event schedule fields (start, interval, count, timescale) are integers')
+    Flow(Disjunctive(zd, cap=512), on_stmt=on_stmt).run(fn, [z0])
+    if not verdicts:
+        raise AnalysisError('create_emsg_boxes: no EventMessageBox construction reached')
+    for label, idx_, why in (('window upper bound', 0, 'presentation_time < seg_end'),
+                             ('window lower bound', 1, 'seg_start <= presentation_time')):
+        wb = [w for w in window if not w[idx_]]
+        if wb:
+            rep.fail('R14.4', construct, label,
+                     f'an EventMessageBox is built on a path that does not imply `{why}`: an event outside '
+                     'the segment\'s [start, end) window is carried (delivered twice or in the wrong segment)',
+                     wb[0][2])
+        else:
+            rep.ok('R14.4', construct, label, f'{why} on {len(window)} path state(s)')
+    bad = [v for v in verdicts if not v[0]]
+    if bad:
+        rep.fail(rid, construct, 'event id < count when the schedule is bounded',
+                 f'an EventMessageBox is built on a path where count can be positive and '
+                 f'{bad[0][1]}: an event with id >= count (one that the manifest does not list) '
+                 'can be emitted when the segment starts between the last event and start + count*interval',
+                 bad[0][2])
+    else:
+        rep.ok(rid, construct, 'event id < count when the schedule is bounded',
+               f'{len(verdicts)} path state(s): ' + ', '.join(sorted({v[1] for v in verdicts})))
 
 
 def r14_6(rep: Report) -> None:
@@ -443,6 +519,7 @@ def analyse(rep: Report) -> None:
     rep.rule('R14.3', 'emsg time field follows the box version', floor=5)
     rep.rule('R14.4', 'event loop step and divisions are guarded positive', floor=3)
     rep.rule('R14.5', 'out-of-band listing shape', floor=6)
+    rep.rule('R14.7', 'in-band events of a bounded schedule have ids below count', floor=1)
     rep.rule('R14.6', 'segment window end is converted to the event timebase as one quantity', floor=1)
     idx = Index(rep.repo, 'dashlive')
     rels = sorted(r for r in idx.by_rel if r.startswith(SCTE + '/')) + ['dashlive/mpeg/section_table.py']
@@ -453,3 +530,4 @@ def analyse(rep: Report) -> None:
     r14_3(rep, idx)
     r14_4_5(rep)
     r14_6(rep)
+    r14_7(rep)
